@@ -12,7 +12,7 @@ MC_AliasGroups == {}
 T_Empty == {}
 T_EmptySeq == <<>>
 TraceLog == ndJsonDeserialize(IOEnv.TRACE)
-VARIABLES l, obs       \* obs: "ok" or a description of how the last line differs from the specification's step
+VARIABLES l, obs       \* obs: <<"ok">> or a description of how the last line differs from the specification's step
 tvars == <<vars, l, obs>>
 
 \* the harness' frame JSON is the specification's frame (a caller-side "ctor" flag is dropped by NormFrame)
@@ -32,7 +32,7 @@ DiffOf(ev) ==
       sd == IF "sets" \in DOMAIN ev /\ lastSets' # ev.sets THEN {<<"sets", lastSets', ev.sets>>} ELSE {}
   IN hd \cup gd \cup fd \cup pd \cup od \cup sd
 
-TraceInit == Init /\ l = 1 /\ obs = "ok"
+TraceInit == Init /\ l = 1 /\ obs = <<"ok">>
 TNew == Ev.e = "New" /\ Done(DefaultObject, [op |-> "New"], "ok", <<>>) /\ UNCHANGED callers
 TAddFrame == Ev.e = "AddFrame" /\ "c" \notin DOMAIN Ev.args /\ AddFrameF(NormFrame(Ev.args.frame), Ev.args.idx, Ev.args) /\ UNCHANGED callers
 TDeclPoint == Ev.e = "DeclPoint" /\ DeclPoint(Ev.args.n)
@@ -53,13 +53,13 @@ TraceStep ==
   /\ l <= Len(TraceLog)
   /\ \/ TNew \/ TSave \/ TAddFrame \/ TDeclPoint \/ TDeclAnalog \/ TPointCols \/ TAnalogCols \/ TSetParam \/ TLock \/ TReload \/ TGet
      \/ THavoc
-  /\ obs' = (IF Ev.e = "Havoc" \/ DiffOf(Ev) = {} THEN "ok" ELSE <<"line", l, Ev.e, DiffOf(Ev)>>)
+  /\ obs' = (IF Ev.e = "Havoc" \/ DiffOf(Ev) = {} THEN <<"ok">> ELSE <<"line", l, Ev.e, DiffOf(Ev)>>)
   /\ l' = l + 1
 TraceSpec == TraceInit /\ [][TraceStep]_tvars
 TraceAccepted == LET d == TLCGet("stats").diameter IN
                  IF d - 1 = Len(TraceLog) THEN TRUE ELSE PrintT(<<"TRACE-REJECTED-AT", d>>) /\ FALSE
 \* the real library did what the specification's action does (every line)
-Conforms == obs = "ok"
+Conforms == obs[1] = "ok"
 \* invariants evaluated after every accepted line
 TraceAgreement == (inScope /\ Mand(obj.grp)) => (AgreePoints(obj) /\ AgreeFrames(obj) /\ AgreeAnalogs(obj) /\ AgreeRate(obj))
 TraceIO == (l % 5 = 0 /\ inScope) => IOInv          \* the file-format model is evaluated on every fifth in-scope state of a trace (cost)
